@@ -918,21 +918,11 @@ class TaskScenario(ScenarioData):
             if eff is not None:
                 efficiency = eff
         else:
-            # Fallback to allocations
-            allocations = self.property.get("allocate", self.scenarioIdx) or []
-            for alloc in allocations:
-                if isinstance(alloc, str):
-                    for res in self.project.resources:
-                        if res.id == alloc:
-                            resource = res
-                            break
-                else:
-                    resource = alloc
-                if resource:
-                    eff = resource.get("efficiency", self.scenarioIdx)
-                    if eff is not None:
-                        efficiency = eff
-                    break
+            # Fallback to allocations (ids, resource objects or a record with alternatives)
+            for resource in self._getResourcesForTask()[:1]:
+                eff = resource.get("efficiency", self.scenarioIdx)
+                if eff is not None:
+                    efficiency = eff
 
         # Calculate effort gained per second in this slot
         slot_duration_hours = slot_duration_seconds / 3600.0
